@@ -3,3 +3,6 @@ NOT_CLAIMED = {}
 add("C01", "exploration", "runtime monitor: boundary send/receive history vs prefix/equality oracle, reference-transport calibration, race detector (thorough)",
     "Every message received on either side is compared online with the sender's k-th attempted message over thousands of generated scripts, sizes and concurrent batches on the real in-process and HTTP/1.1 transports; held on the executions observed, not a proof.",
     "Trusts the harness actors' own event log and google.golang.org/grpc as calibration reference; HTTP scripts are half-duplex; interleavings are those the scheduler and concurrent batches produced.", "DESIGN.md 4/C01")
+add("C02", "exploration", "runtime monitor: handler-return vs client-outcome oracle over generated status/error scripts, reference-transport calibration, GC-pressure schedule",
+    "The client's terminal result (status.Convert) is compared with the handler's return value for ~1.2k (quick) generated scripts per run covering 20 codes, hostile messages, details, plain/context/EOF errors at every response position, plus lost (undecodable/unencodable) responses and a deterministic GC schedule; held on those executions.",
+    "Expected statuses are those the standard transport delivers (calibrated per script); status messages compared modulo U+FFFD sanitising; known finding F-C02-1 (unary HTTP status message in a header) is matched by signature.", "DESIGN.md 4/C02")
